@@ -114,14 +114,18 @@ def shuffled_stage(ctx: core.Ctx, cases: list[dict], n_inst: int) -> None:
             vals = above + above[:0] if fn == "oil_compressibility_undersat_Spivey" else below + above
             if fn == "oil_compressibility_undersat_Spivey":
                 vals = sorted(rng.uniform(1.02 * pb, min(2.5 * pb, drv.P_MAX), 6))
-            for dt in ("f64", "i64"):
+            for dt, two_d in (("f64", False), ("i64", False), ("f64", True)):
                 arr = np.roll(np.array(vals, dtype=drv.NP_DTYPE[dt]), 2)
+                if two_d:
+                    arr = arr.reshape(2, 3)   # a field p[time, block]: judged only if the function accepts it (returns)
                 before = drv.digest(arr)
-                key = f"shuffled/{fn}/{dt}#{i}"
+                key = f"shuffled/{fn}/{dt}{'/2d' if two_d else ''}#{i}"
                 ctx.case(key)
                 try:
                     res = np.asarray(arr_call(arr))
                 except Exception as ex:  # noqa: BLE001
+                    if two_d:
+                        continue   # this correlation does not accept 2-d arrays: outside the property
                     ctx.violation("Returns", f"{fn} on a shuffled {dt} array {arr.tolist()} raised {type(ex).__name__}: {ex}",
                                   replay={"stage": "shuffled", "fn": fn, "dtype": dt, "inst": inst, "arr": arr.tolist()})
                     continue
@@ -132,11 +136,12 @@ def shuffled_stage(ctx: core.Ctx, cases: list[dict], n_inst: int) -> None:
                     what = ("Shape", f"result shape {res.shape} for input shape {arr.shape}")
                 else:
                     t = tol.get((fn, dt), 64)
-                    for k in range(len(arr)):
-                        ref = float(sc_call(float(arr[k])))
-                        u = drv.ulps_of(res[k], ref, "f64")
+                    flat_in, flat_out = arr.ravel(), res.ravel()
+                    for k in range(flat_in.size):
+                        ref = float(sc_call(float(flat_in[k])))
+                        u = drv.ulps_of(flat_out[k], ref, "f64")
                         if not u <= t:
-                            what = ("Elementwise", f"element {k} (p={float(arr[k])!r}): array {float(res[k])!r}, scalar {ref!r} "
+                            what = ("Elementwise", f"element {k} (p={float(flat_in[k])!r}): array {float(flat_out[k])!r}, scalar {ref!r} "
                                                    f"({u:.3g} ulp > {t})")
                             break
                 if what:
@@ -151,7 +156,7 @@ def replay(ctx: core.Ctx, obj: dict) -> None:
         arr_call, sc_call = drv.calls(r["inst"])[r["fn"]]
         arr = np.array(r["arr"], dtype=drv.NP_DTYPE[r["dtype"]])
         print("array :", np.asarray(arr_call(arr)).tolist())
-        print("scalar:", [float(sc_call(float(x))) for x in arr])
+        print("scalar:", [float(sc_call(float(x))) for x in arr.ravel()])
         ctx.case("replay-1"); ctx.case("replay-2")
         return
     case, inst = r["case"], r["inst"]
